@@ -223,6 +223,21 @@ def _discharge_call(F, b, tb, i, t):
         if bound is not None and max(abs(bound[0]), abs(bound[1])) < 10 ** 6:
             return f"argument ranges over the constant interval {bound}"
         return None
+    # s.truncate(s.trim_end…().len()): the new length is that of a prefix of the same string ending on a char boundary
+    if cal.endswith("String::truncate") and len(t["args"]) == 2:
+        n = tb.operand(t["args"][1])
+        s0 = tb.operand(t["args"][0])
+        if isinstance(n, tuple) and n and n[0] == "call" and parse_callee(n[1])[2] == "len" and n[2]:
+            x = n[2][0]
+            ok = False
+            while isinstance(x, tuple) and x and x[0] == "call" and parse_callee(x[1])[2] in ("trim_end", "trim_end_matches", "trim_right", "trim_right_matches", "as_str", "deref"):
+                ok = ok or parse_callee(x[1])[2].startswith("trim_")
+                x = x[2][0]
+            def var_of(z):
+                return z[1] if isinstance(z, tuple) and z and z[0] == "var" else z
+            if ok and var_of(x) == var_of(s0):
+                return "new length is the length of a right-trimmed prefix of the same string (≤ len, on a char boundary)"
+        return None
     # Vec::remove(pos) where pos comes from position() on the same Vec
     if cal.endswith("::remove") and "Vec" in cal and len(t["args"]) == 2:
         term = tb.operand(t["args"][1])
@@ -449,6 +464,112 @@ def counter_ok(b, tb, l, seen=()):
     return True
 
 
+def _iteration_counter(b, op):
+    """the operand is a usize local that starts at a constant and is otherwise only written by `self + 1`, every increment
+    sitting in a loop driven by Iterator::next and no two increments (nor one twice) executing in the same iteration"""
+    l = named_root(b, op)
+    if l is None or b.local_ty(l) != "usize":
+        return False
+    incs = []
+    for d in b.defs().get(l, []):
+        if d[0] != "assign":
+            return False
+        rv = d[3]["rv"]
+        if rv["k"] != "use":
+            return False
+        k = op_const(rv["op"])
+        if k is not None and "int" in k:
+            continue
+        q = op_place(rv["op"])
+        pj = place_proj(q) if q is not None else None
+        if not (pj and len(pj) == 1 and isinstance(pj[0], dict) and pj[0].get("f") == 0):
+            return False
+        td = b.defs().get(q["l"], [])
+        if not (len(td) == 1 and td[0][0] == "assign" and td[0][3]["rv"]["k"] == "bin" and td[0][3]["rv"]["op"] == "AddWithOverflow"):
+            return False
+        kc = op_const(td[0][3]["rv"]["b"])
+        if not (named_root(b, td[0][3]["rv"]["a"]) == l and kc is not None and kc.get("int") == "1"):
+            return False
+        incs.append(d[1])
+    if not incs or l in getattr(b, "mutated", {}):
+        return False
+    loops = b.loops()
+    for blk in incs:
+        inner = [(h, bl) for h, bl in loops if blk in bl]
+        if not inner:
+            return False
+        h, bl = min(inner, key=lambda x: len(x[1]))
+        if not any(parse_callee(b.term(x).get("callee", ""))[2] == "next" for x in bl if b.term(x)["k"] == "call"):
+            return False
+        # from this increment no other increment (nor itself) is reachable without passing the loop header
+        after = set()
+        for s_ in b.succ(blk):
+            after |= b.reach_from(s_, removed_blocks=(h,))
+        if any(o in after for o in incs):
+            return False
+    return True
+
+
+def _is_count_of(t):
+    return isinstance(t, tuple) and t and t[0] == "call" and parse_callee(t[1])[2] in ("count", "len")
+
+
+def _same_sequence(cnt, idx):
+    """cnt = count(chars(X)) / len(X) and idx = enumerate(chars(X)).next().0 over the same X"""
+    def base(t):
+        for _ in range(24):
+            if not (isinstance(t, tuple) and t):
+                break
+            if t[0] == "call" and parse_callee(t[1])[2] in ("count", "len", "chars", "iter", "enumerate", "next", "bytes", "char_indices", "into_iter") and t[2]:
+                t = t[2][0]
+            elif t[0] in ("some", "field") and len(t) >= 2:
+                t = t[1]
+            elif t[0] == "var" and len(t) > 2:
+                t = t[2]
+            else:
+                break
+        return t
+    return base(cnt) == base(idx) and base(cnt) is not None
+
+
+def _year_param_from_taxperiod(F, b, term):
+    """term is a parameter of b (or a parameter of the enclosing function captured by the closure b) and every
+    user-written caller passes `TaxPeriod::start_year(..)`"""
+    fn, k = b, None
+    if isinstance(term, tuple) and term and term[0] == "param" and b.kind != "closure":
+        k = term[1]
+    elif b.kind == "closure" and b.parent in F.bodies:
+        # captured by value or by reference: (*env).j — find what the parent stored there
+        u = None
+        t = term
+        while isinstance(t, tuple) and t and t[0] == "field":
+            if isinstance(t[1], tuple) and t[1] and t[1][0] == "param" and t[1][1] == 0:
+                u = t[2]
+            t = t[1]
+        if u is None:
+            return False
+        pb = F.bodies[b.parent]
+        ptb = Terms(F, pb, inline_depth=0)
+        for i, si, s in pb.assigns():
+            if s["rv"]["k"] == "closure" and s["rv"]["id"] == b.id:
+                try:
+                    cap = ptb.operand(s["rv"]["ops"][int(u)])
+                except (ValueError, IndexError):
+                    return False
+                if isinstance(cap, tuple) and cap and cap[0] == "param":
+                    fn, k = pb, cap[1]
+    if k is None:
+        return False
+    sites = [(cb, ct) for cb, ci, ct in F.call_sites(lambda cal, fid=fn.id: cal == fid) if user_written(F, cb)]
+    if not sites:
+        return False
+    for cb, ct in sites:
+        a = Terms(F, cb, inline_depth=0).operand(ct["args"][k])
+        if not any(isinstance(x, tuple) and x and x[0] == "call" and x[1].endswith("TaxPeriod::start_year") for x in subterms(a)):
+            return False
+    return True
+
+
 def _guarded_counter(b, tb, var_term):
     return False
 
@@ -519,6 +640,10 @@ def _discharge_assert(F, b, tb, i, t, msg, ops):
         if tys[0] == "usize":
             if msg.startswith("Overflow(Add)") and _is_index_like(b, tb, t["ops"][0], a) and _is_index_like(b, tb, t["ops"][1], c):
                 return "usize operands bounded by the length of a live allocation (≤ isize::MAX each)"
+            if msg.startswith("Overflow(Add)") and c == ("int", 1) and _iteration_counter(b, t["ops"][0]):
+                return "event counter: starts at a constant and grows by 1 at most once per iteration of a loop over an in-memory collection (≤ isize::MAX iterations)"
+            if msg.startswith("Overflow(Sub)") and _is_count_of(a) and isinstance(c, tuple) and c[0] == "field" and c[2] == "0" and _same_sequence(a, c):
+                return "count − enumerate index of the same sequence (index < count)"
             if msg.startswith("Overflow(Sub)"):
                 # len(X) - i where i is the enumerate index over X
                 if _is_len(a) and isinstance(c, tuple) and c[0] == "field" and c[2] == "0":
@@ -533,6 +658,8 @@ def _discharge_assert(F, b, tb, i, t, msg, ops):
         if tys[0] == "u16" and c[0] == "int" and c[1] == 1:
             if _taxperiod_field(b, a, tb):
                 return "TaxPeriod invariant 1900 ≤ start_year ≤ 2100 (constructor checked, C07-R2)"
+            if _year_param_from_taxperiod(F, b, a):
+                return "u16 parameter that every workspace caller fills with TaxPeriod::start_year() (≤ 2100, C07-R2)"
             return None
     return None
 
@@ -836,6 +963,28 @@ def _discharge_division(F, b, tb, i, t, dv):
     for cond, val, s in guards_of(b, tb, i):
         if _nonzero_guard(cond, val, dv):
             return "dominated by a `divisor != 0` test on the same value"
+    # inside a closure: the divisor is a captured value that the enclosing function tested before creating the closure
+    if b.kind == "closure" and b.parent in F.bodies:
+        u = None
+        x = dv
+        while isinstance(x, tuple) and x and x[0] == "field":
+            if isinstance(x[1], tuple) and x[1] and x[1][0] == "param" and x[1][1] == 0:
+                u = x[2]
+            x = x[1]
+        if u is not None and dv[0] == "field" and (dv[1] == ("param", 0, dv[1][2] if len(dv[1]) > 2 else None) or True):
+            pb = F.bodies[b.parent]
+            ptb = Terms(F, pb, inline_depth=0)
+            for pi, psi, ps in pb.assigns():
+                if ps["rv"]["k"] == "closure" and ps["rv"]["id"] == b.id:
+                    try:
+                        cap = ptb.operand(ps["rv"]["ops"][int(u)])
+                    except (ValueError, IndexError):
+                        continue
+                    # only a capture used as the divisor itself (not a field of it)
+                    if dv == ("field", dv[1], u) and isinstance(dv[1], tuple) and dv[1][0] == "param" and dv[1][1] == 0:
+                        for cond, val, s in guards_of(pb, ptb, pi):
+                            if _nonzero_guard(cond, val, cap):
+                                return "the divisor is captured from the enclosing function, which tested it `!= 0` before creating the closure"
     # divisor read from an element of an iterator filtered on `field > 0`
     if isinstance(dv, tuple) and dv and dv[0] == "field":
         fname = dv[2]
@@ -851,4 +1000,19 @@ def _discharge_division(F, b, tb, i, t, dv):
                                 if isinstance(z, tuple) and z and z[0] == "cmp" and z[1] == "Gt" and z[3] == ("const", "Decimal::ZERO") and \
                                         isinstance(z[2], tuple) and z[2][0] == "field" and z[2][2] == fname:
                                     return f"the element comes from an iterator filtered on `{fname} > 0`"
+        # …or from a local Vec that is only ever filled by pushes guarded by `element.field != 0`
+        for x in subterms(dv):
+            if isinstance(x, tuple) and x and x[0] == "var" and len(x) > 2 and isinstance(x[2], tuple) and x[2] and x[2][0] == "call" \
+                    and x[2][1].endswith("Vec::<T>::new"):
+                vname = x[1]
+                pushes = []
+                for j, u in b.calls():
+                    if parse_callee(u["callee"])[2] in ("push", "insert", "extend", "append", "extend_from_slice", "push_within_capacity") and "Vec" in u["callee"]:
+                        r = root_of_operand(b, u["args"][0])
+                        if r and not r[1] and b.local_name(r[0]) == vname:
+                            pushes.append((j, u))
+                if pushes and all(parse_callee(u["callee"])[2] == "push" and
+                                  any(_nonzero_guard(cond, val, ("field", tb.operand(u["args"][1]), fname)) for cond, val, s in guards_of(b, tb, j))
+                                  for j, u in pushes):
+                    return f"the element comes from a local Vec filled only by pushes guarded by `{fname} != 0`"
     return None
